@@ -21,87 +21,87 @@ CFG = {
                  'sequential thread pool only (parallel schedules are C17)',
                  'logistic regression, the Stein / log-transform / translation estimators and the shape HMM are not driven'],
  'min_cov': {
-             'data:all-equal': 468,
-             'data:all-zero': 203,
-             'data:integer': 135,
-             'data:large': 200,
-             'data:missing-category': 120,
-             'data:offset': 37,
-             'data:regular': 946,
-             'data:repeats': 334,
-             'data:wide': 136,
-             'data:with-zeros': 279,
+             'data:all-equal': 1423,
+             'data:all-zero': 627,
+             'data:integer': 404,
+             'data:large': 640,
+             'data:missing-category': 363,
+             'data:offset': 201,
+             'data:regular': 2868,
+             'data:repeats': 1027,
+             'data:wide': 406,
+             'data:with-zeros': 851,
              'directed:closed.scalar': 2,
-             'directed:closed.vector': 8,
+             'directed:closed.vector': 5,
              'directed:closed.wrapper': 5,
              'directed:em.hmm': 7,
              'directed:em.hmm.options': 2,
              'directed:em.mixture.scalar': 2,
              'directed:em.mixture.vector': 4,
              'directed:numeric': 2,
-             'em-family:ScalarId:normal': 27,
-             'em-family:ScalarId:poisson': 27,
-             'em-family:categorical': 112,
-             'em-family:exponential': 123,
-             'em-family:geometric': 136,
-             'em-family:negativeBinomial': 113,
-             'em-family:normal': 139,
-             'em-family:poisson': 131,
-             'em-family:vectorNormal': 55,
-             'em-hmm-restriction:final': 31,
-             'em-hmm-restriction:none': 172,
-             'em-hmm-restriction:start': 33,
-             'em-hmm-restriction:start+final': 10,
-             'em-hmm:OptimizeTransitions=false': 12,
-             'em-hmm:shared-emissions': 36,
-             'em:matrixHmm': 46,
-             'em:nested:hmm': 29,
-             'em:nested:mixture': 26,
-             'em:pairing-checked': 8043,
-             'em:scalarMixture': 401,
-             'em:step-checked': 8036,
-             'em:vectorHmm': 237,
-             'em:vectorMixture': 202,
-             'entry:Estimate': 1321,
-             'entry:EstimateOnData': 1322,
-             'entry:batch': 1280,
-             'estimator:categorical': 493,
-             'estimator:exponential': 479,
-             'estimator:geometric': 477,
-             'estimator:negativeBinomial': 477,
-             'estimator:normal': 483,
-             'estimator:poisson': 471,
-             'estimator:vector-normal': 1004,
-             'judged-estimates': 3803,
-             'mvn:dim=1': 322,
-             'mvn:dim=2': 321,
-             'mvn:dim=3': 313,
-             'mvn:floor-active': 276,
-             'mvn:floor-inactive': 384,
-             'numeric-method:bfgs': 20,
-             'numeric-method:newton': 39,
-             'numeric:exponential': 19,
-             'numeric:gamma': 18,
-             'numeric:judged': 54,
-             'numeric:normal': 39,
-             'perturbation:evaluated': 33550,
-             'perturbation:projected-onto-bound': 7016,
-             'size:n=1': 486,
-             'size:n=2-5': 504,
-             'size:n>5': 1939,
-             'weights:unweighted': 719,
-             'weights:weighted': 1481,
-             'weights:weighted+(-Inf)': 738,
-             'wrapped:categorical': 156,
-             'wrapped:exponential': 158,
-             'wrapped:geometric': 154,
-             'wrapped:negativeBinomial': 162,
-             'wrapped:normal': 162,
-             'wrapped:poisson': 155,
-             'wrapper:ScalarBatchId': 240,
-             'wrapper:ScalarId': 247,
-             'wrapper:ScalarIid': 238,
-             'wrapper:ScalarIid(n=-1)': 240,
+             'em-family:ScalarId:normal': 138,
+             'em-family:ScalarId:poisson': 139,
+             'em-family:categorical': 338,
+             'em-family:exponential': 371,
+             'em-family:geometric': 427,
+             'em-family:negativeBinomial': 350,
+             'em-family:normal': 415,
+             'em-family:poisson': 418,
+             'em-family:vectorNormal': 291,
+             'em-hmm-restriction:final': 165,
+             'em-hmm-restriction:none': 505,
+             'em-hmm-restriction:start': 167,
+             'em-hmm-restriction:start+final': 34,
+             'em-hmm:OptimizeTransitions=false': 18,
+             'em-hmm:shared-emissions': 167,
+             'em:matrixHmm': 217,
+             'em:nested:hmm': 141,
+             'em:nested:mixture': 139,
+             'em:pairing-checked': 24294,
+             'em:scalarMixture': 1201,
+             'em:step-checked': 24272,
+             'em:vectorHmm': 695,
+             'em:vectorMixture': 602,
+             'entry:Estimate': 3957,
+             'entry:EstimateOnData': 3982,
+             'entry:batch': 3954,
+             'estimator:categorical': 1462,
+             'estimator:exponential': 1459,
+             'estimator:geometric': 1482,
+             'estimator:negativeBinomial': 1454,
+             'estimator:normal': 1466,
+             'estimator:poisson': 1468,
+             'estimator:vector-normal': 3002,
+             'judged-estimates': 11477,
+             'mvn:dim=1': 1003,
+             'mvn:dim=2': 978,
+             'mvn:dim=3': 978,
+             'mvn:floor-active': 868,
+             'mvn:floor-inactive': 1208,
+             'numeric-method:bfgs': 107,
+             'numeric-method:newton': 195,
+             'numeric:exponential': 107,
+             'numeric:gamma': 55,
+             'numeric:judged': 264,
+             'numeric:normal': 203,
+             'perturbation:evaluated': 100374,
+             'perturbation:projected-onto-bound': 21601,
+             'size:n=1': 1465,
+             'size:n=2-5': 1549,
+             'size:n>5': 5836,
+             'weights:unweighted': 2180,
+             'weights:weighted': 4441,
+             'weights:weighted+(-Inf)': 2233,
+             'wrapped:categorical': 483,
+             'wrapped:exponential': 490,
+             'wrapped:geometric': 477,
+             'wrapped:negativeBinomial': 483,
+             'wrapped:normal': 497,
+             'wrapped:poisson': 471,
+             'wrapper:ScalarBatchId': 725,
+             'wrapper:ScalarId': 755,
+             'wrapper:ScalarIid': 747,
+             'wrapper:ScalarIid(n=-1)': 713,
             },
  'parallel': 16,
 }
@@ -112,7 +112,7 @@ META = {
               'judged against LogPdf of the models they hand out',
  'text': 'Closed-form estimators are judged by an independently written weighted log-likelihood (bounds + perturbation test), the numeric '
          'estimator by its closed-form gradient, EM drivers by their hook trace (pairing with LogPdf, monotonicity) on ~12k (quick) / ~300k '
-         '(thorough) generated data sets and ~2k / ~50k EM runs; held on the executions observed, listed by estimator, entry point, data and '
+         '(thorough) generated cases (of which ~6k / ~95k EM runs); held on the executions observed, listed by estimator, entry point, data and '
          'weight class. Not a proof: perturbations of relative size 1e-3 and 1e-5 cannot see errors below ~1e-5 of the parameter scale.',
  'note': 'Trusted: harness/c16/lik.go (closed forms, Kahan sums), the library\'s LogPdf for mixtures/HMMs (C15).',
 }
